@@ -9,6 +9,9 @@ CFG = dict(
     project={'e2emulti': lib.multi(f1=lib.proj_e2e({'h2'}))},
     race=True,
     rule=("server-level, built with -race: the client writes a whole script (requests interleaved with SETTINGS / WINDOW_UPDATE / "
+          "PRIORITY / HEADERS+priority; every fourth script ends in a storm of 10-30 same-size SETTINGS frames with changing values, "
+          "each followed by a request; the test connection's wait-after-write is switched off so the serve loop really runs "
+          "against the marshalling handlers) "
           "PRIORITY / HEADERS+priority, 8..80 frames, up to ~25 concurrently open streams) WITHOUT waiting for quiescence while every "
           "handler marshals the fingerprint 400 times; each distinct value observed must be fpSpec of the history at one instant not "
           "earlier than the request's own HEADERS (else TORN); race-detector reports are violations. Plus concurrent multi-client "
